@@ -58,4 +58,24 @@ MUTANTS = [
       (MA, "data=np.copy(self.data),space=self.space,types=self.types)", "data=self.data,space=self.space,types=self.types)")),
     M('ma-div-by-length1-first-only', ['C13'],
       (MA, "            data = self.data / other.data\n", "            data = self.data / (other.data if other.length==self.length else other.data[0,0,0])\n")),
+    # ------------------------------------------------------------------ C14 tables
+    M('pt-no-deepcopy', ['C14'],
+      (PT, "value_copy = copy.deepcopy(value) ", "value_copy = value ")),
+    M('pt-deepcopy-once-per-statement', ['C14'],
+      (PT, "        types1,types2 = index\n        for t1 in self.listify(types1):", "        types1,types2 = index\n        value = copy.deepcopy(value)\n        for t1 in self.listify(types1):"),
+      (PT, "value_copy = copy.deepcopy(value) ", "value_copy = value ")),
+    M('pt-setunset-overwrites-offdiagonal', ['C14'],
+      (PT, "        for i,(t1,t2),v in self.iterpairs():\n            if v is None:\n                self[t1,t2] = value", "        for i,(t1,t2),v in self.iterpairs():\n            if v is None or (self.values[t2][t2] is None and t1!=t2):\n                self[t1,t2] = value")),
+    M('pt-no-mirror-when-list', ['C14'],
+      (PT, "                if self.symmetric and t1!=t2:", "                if self.symmetric and t1!=t2 and not isinstance(types2,tuple):")),
+    M('pt-iterpairs-offdiag-includes-last-diag', ['C14'],
+      (PT, "            test = lambda i,j: i<j", "            test = lambda i,j: i<j or (i==j and i==3)")),
+    M('pt-check-upper-row-only', ['C14'],
+      (PT, "        for i,t,val in self.iterpairs():\n            if val is None:\n                raise ValueError('PairTable {} is not fully specified!'.format(self.name))", "        for (i,j),t,val in self.iterpairs():\n            if val is None and i==0:\n                raise ValueError('PairTable {} is not fully specified!'.format(self.name))")),
+    M('pt-apply-outofplace-aliases-self', ['C14'],
+      (PT, "            table = PairTable(types=self.types,name=self.name,symmetric=self.symmetric)", "            table = PairTable(types=self.types,name=self.name,symmetric=self.symmetric)\n            table.values = self.values")),
+    M('vt-setunset-overwrites', ['C14'],
+      (VT, "        for i,t,v in self:\n            if v is None:\n                self[t] = value", "        for i,t,v in self:\n            if v is None or i==len(self.types)-1:\n                self[t] = value")),
+    M('table-listify-tuple-as-single', ['C14'],
+      ('pyPRISM/core/Table.py', "        if isinstance(values,str):", "        if isinstance(values,(str,tuple)):")),
 ]
